@@ -2,6 +2,7 @@ package scen
 
 import (
 	"bytes"
+	"context"
 	"fmt"
 	"runtime"
 	"sort"
@@ -139,9 +140,12 @@ type pageScript struct {
 	// goes on. speculative: the query is idempotent and has a speculative execution policy
 	// (whose delay never expires here), so that it runs under the executor's own context.
 	releaseEarly, speculative bool
-	consumer2                 int
-	abandonAt                 int // >0: the first iteration stops after this many rows, just behind a page switch
-	faultGen                  int // which execution the injected failure hits
+	// ctxMode: the caller gives the query a context: 0 no, 1 as the first option, 2 as the
+	// last one (after PageState and everything else) - options commute
+	ctxMode   int
+	consumer2 int
+	abandonAt int // >0: the first iteration stops after this many rows, just behind a page switch
+	faultGen  int // which execution the injected failure hits
 
 	// a consumer that checkpoints and then wipes what the driver hands out: it calls
 	// Iter.PageState(), keeps a private copy and overwrites the returned slice in place
@@ -390,6 +394,10 @@ func (pr *pageRun) drawScript(tp *kernel.Tape, ti, oi, qid, proto, sessPageSize 
 	if tp.Chance(1, 5) {
 		s.speculative = true
 		pr.k.Fault("page.idempotent-with-speculative-policy")
+	}
+	if !s.reexec && tp.Chance(1, 4) {
+		s.ctxMode = 1 + tp.Next(2)
+		pr.k.Fault(fmt.Sprintf("page.with-context-mode-%d", s.ctxMode))
 	}
 	// the consumer that checkpoints and wipes (0 = it only reads)
 	if tp.Chance(1, 3) {
@@ -933,6 +941,9 @@ func (pr *pageRun) buildQuery(sess *gocql.Session, s *pageScript) *gocql.Query {
 	} else {
 		q = sess.Query(s.stmt)
 	}
+	if s.ctxMode == 1 {
+		q = q.WithContext(context.Background())
+	}
 	q.Consistency(s.cons)
 	if s.pageSizeSet {
 		q.PageSize(s.pageSize)
@@ -964,6 +975,9 @@ func (pr *pageRun) buildQuery(sess *gocql.Session, s *pageScript) *gocql.Query {
 	}
 	if s.speculative {
 		q.Idempotent(true).SetSpeculativeExecutionPolicy(&gocql.SimpleSpeculativeExecution{NumAttempts: 1, TimeoutDelay: time.Hour})
+	}
+	if s.ctxMode == 2 {
+		q = q.WithContext(context.Background())
 	}
 	return q
 }
